@@ -220,6 +220,27 @@ static std::string step(const Toks& t)
 	if (op == "rconcat" && na == 1) { Exact d(unhex(t[1])); return show((const char*)d.p + c); }
 	if (op == "split" && na == 1) { Exact d(unhex(t[1])); if (d.n == 0) return "err empty"; return showList(c.split(S(d))); }
 	if (op == "splitjoin" && na == 1) { Exact d(unhex(t[1])); if (d.n == 0) return "err empty"; String sep = S(d); return show(c.split(sep).join(sep)); }
+	// case mapping (content is C08's business): the results must be well-formed Strings — length() == strlen(), fits its
+	// capacity, still so after an append — whatever bytes the input has; for pure ASCII input the text is checked too
+	if (op == "caseinv" && na == 0) {
+		std::string r = "inv", txt;
+		bool ascii = true;
+		for (int i = 0; i < c.length(); i++) if ((unsigned char)(*c)[i] >= 128) ascii = false;
+		for (int k = 0; k < 2; k++) {
+			String* u = new String(k ? c.toLowerCase() : c.toUpperCase());
+			const char* nm = k ? " lower:" : " upper:";
+			if (u->length() < 0 || (long long)strlen(**u) != u->length())
+				r += std::string(nm) + "len=" + str(u->length()) + ",strlen=" + str((long long)strlen(**u));
+			else if (u->length() >= u->cap()) r += std::string(nm) + "len>=cap";
+			else {
+				String v = *u + "!";
+				if (v.length() != u->length() + 1 || (long long)strlen(*v) != v.length()) r += std::string(nm) + "append-breaks";
+			}
+			txt += " " + (ascii ? hex(**u, u->length()) : std::string("~"));
+			delete u;
+		}
+		return (r == "inv" ? "inv ok" : r) + txt;
+	}
 	// the caller's output array holds the operands: out = [filler, X, filler]
 	if (op == "splitself" && na == 1) {
 		Exact d(unhex(t[1])); if (d.n == 0) return "err empty";
